@@ -1,5 +1,6 @@
 //! Engine B: world generator + in-process drivers for all generators.
 mod backends;
+mod c09;
 mod c12;
 mod c13;
 mod c15;
@@ -38,6 +39,7 @@ fn main() {
     }
     let mut check = vcommon::Check::new(&args);
     match args.id.as_str() {
+        "C09" => c09::run(&mut check),
         "C12" => c12::run(&mut check),
         "C13" => c13::run(&mut check),
         "C15" => c15::run(&mut check),
